@@ -1,6 +1,6 @@
 (* C10 - step-up / step-down procedures regenerated from multiplicity.py (genR/Multiplicity.v), in processing order. *)
 From Coq Require Import Reals List Arith Bool Lra Lia Sorted.
-From TT Require Import lib.PreludeR lib.Loop genR.Multiplicity.
+From TT Require Import lib.RTac lib.PreludeR lib.Loop genR.Multiplicity.
 Import ListNotations.
 Local Open Scope R_scope.
 
@@ -336,16 +336,16 @@ Hypothesis Ha : 0 < alpha < 1.
 (* Benjamini-Hochberg / -Yekutieli: k = m - j is the rank (1 = smallest p-value) *)
 Lemma bh_closed_form p k : 
   benjamini_adjust (mk_benjamini alpha madj) p k = (Rmin (p * (madj / k)) 1, alpha / (madj / k)).
-Proof. reflexivity. Qed.
+Proof. first [reflexivity | unfold benjamini_adjust, bonferroni_adjust, sidak_adjust; cbn; nR; cbv [nmin nmax]; cbv zeta; rq]. Qed.
 Lemma bh_threshold_pos p k : 0 < madj -> 0 < k -> 0 < snd (benjamini_adjust (mk_benjamini alpha madj) p k).
 Proof.
-  intros Hm Hk. cbn. nR. apply Rmult_lt_0_compat; [lra|]. apply Rinv_0_lt_compat.
+  intros Hm Hk. rewrite bh_closed_form; cbn [fst snd]. apply Rmult_lt_0_compat; [lra|]. apply Rinv_0_lt_compat.
   apply Rmult_lt_0_compat; [lra | apply Rinv_0_lt_compat; lra].
 Qed.
 Lemma bh_consistent p k : 0 < madj -> 0 < k ->
   (fst (benjamini_adjust (mk_benjamini alpha madj) p k) <= alpha <-> p <= snd (benjamini_adjust (mk_benjamini alpha madj) p k)).
 Proof.
-  intros Hm Hk. cbn. nR.
+  intros Hm Hk. rewrite bh_closed_form; cbn [fst snd].
   assert (Hc : 0 < madj / k) by (apply Rmult_lt_0_compat; [lra | apply Rinv_0_lt_compat; lra]).
   assert (Hi : 0 < / (madj / k)) by (apply Rinv_0_lt_compat; exact Hc).
   split.
@@ -359,7 +359,7 @@ Proof.
 Qed.
 Lemma bh_range p k : 0 <= p <= 1 -> 0 < k <= madj -> p <= fst (benjamini_adjust (mk_benjamini alpha madj) p k) <= 1.
 Proof.
-  intros Hp Hk. cbn. nR. split; [|apply Rmin_r].
+  intros Hp Hk. rewrite bh_closed_form; cbn [fst snd]. split; [|apply Rmin_r].
   apply Rmin_glb; [|lra].
   assert (1 <= madj / k).
   { apply Rmult_le_reg_r with k; [lra|]. replace (madj / k * k) with madj by (field; lra). lra. }
@@ -369,11 +369,11 @@ Qed.
 (* Bonferroni: coef = m - k + 1 *)
 Lemma bonf_closed_form m p k :
   bonferroni_adjust (mk_bonferroni alpha m) p k = (Rmin (p * (m - k + 1)) 1, alpha / (m - k + 1)).
-Proof. reflexivity. Qed.
+Proof. first [reflexivity | unfold benjamini_adjust, bonferroni_adjust, sidak_adjust; cbn; nR; cbv [nmin nmax]; cbv zeta; rq]. Qed.
 Lemma bonf_consistent m p k : 0 < m - k + 1 ->
   (fst (bonferroni_adjust (mk_bonferroni alpha m) p k) <= alpha <-> p <= snd (bonferroni_adjust (mk_bonferroni alpha m) p k)).
 Proof.
-  intros Hc. cbn. nR. set (c := m - k + 1) in *.
+  intros Hc. rewrite bonf_closed_form; cbn [fst snd]. set (c := m - k + 1) in *.
   split.
   - intros H. assert (H1 : p * c <= alpha) by (unfold Rmin in H; destruct (Rle_dec (p * c) 1); lra).
     apply Rmult_le_reg_r with c; [exact Hc|]. replace (alpha / c * c) with alpha by (field; lra). exact H1.
@@ -383,7 +383,7 @@ Proof.
 Qed.
 Lemma bonf_threshold m p k : 1 <= m - k + 1 -> 0 < snd (bonferroni_adjust (mk_bonferroni alpha m) p k) < 1.
 Proof.
-  intros Hc. cbn. nR. set (c := m - k + 1) in *.
+  intros Hc. rewrite bonf_closed_form; cbn [fst snd]. set (c := m - k + 1) in *.
   assert (0 < / c) by (apply Rinv_0_lt_compat; lra).
   split; [apply Rmult_lt_0_compat; lra|].
   apply Rmult_lt_reg_r with c; [lra|]. replace (alpha / c * c) with alpha by (field; lra). lra.
@@ -392,7 +392,7 @@ Qed.
 (* Sidak: coef = m - k + 1;  1 - (1 - p)^coef  and  1 - (1 - alpha)^(1/coef) *)
 Lemma sidak_closed_form m p k :
   sidak_adjust (mk_sidak alpha m) p k = (1 - nrpow (1 - p) (m - k + 1), 1 - nrpow (1 - alpha) (1 / (m - k + 1))).
-Proof. reflexivity. Qed.
+Proof. first [reflexivity | unfold benjamini_adjust, bonferroni_adjust, sidak_adjust; cbn; nR; cbv [nmin nmax]; cbv zeta; rq]. Qed.
 Lemma Rpower_unit x y : 0 < x < 1 -> 0 < y -> 0 < Rpower x y < 1.
 Proof.
   intros Hx Hy. unfold Rpower. split; [apply exp_pos|]. rewrite <- exp_0. apply exp_increasing.
